@@ -8,7 +8,9 @@
                abandoned-quantifier witness
  3 correspond  accepted seed models x every non-declaring label x fault kinds x token positions, real library:
                field-wise dump of the faulty document (as built) = fault-free dump outside the faulted field, all new
-               diagnostics attributed to the faulted block; type errors compared after static analysis;
+               diagnostics attributed to the faulted block from their first to their last character (both anchors of the
+               range); semantic faults (type error, side effect, wrong type for the label's role, expression without effect:
+               the label parses, the type checker objects) compared after static analysis;
                declaration blocks: truncation / token deletion inside declaration i keeps declarations < i
  4 classify    a disturbance whose trace (TraceBuilder) shows an unmatched frame push is the computed exception shape
                leak:frame:<callback>; anything else is a violation
@@ -37,6 +39,9 @@ FAULTS = ["undeclared", "dropped", "bracket", "stray", "typeerr", "comment", "ra
 # Faults that stay inside the label's `kind ... ;` section of the XTA text.  Unbalanced brackets are left out: in the one-text format
 # bison recovers through `'(' error ')'` / `'[' error ']'` and by design skips to the next closing bracket, wherever it is.
 XTA_FAULTS = {"undeclared", "dropped", "rangetypo", "overflow"}
+# Faults the parser accepts and the type checker reports (after every block is in the position index, from the positions the
+# expressions carry): compared after static analysis on both sides.  `typeerr` is placed by inject(), the others by semantic_faults().
+SEMANTIC = {"typeerr", "sideeffect", "wrongrole", "noeffect"}
 
 
 def balanced(t):
@@ -69,7 +74,7 @@ def _run(exe, cases):
             cur = None
             for line in out.split("\n"):
                 if line.startswith("BEGIN "):
-                    cur = {"rc": None, "F": {}, "E": [], "W": [], "walk": [], "done": False}
+                    cur = {"rc": None, "F": {}, "E": [], "W": [], "A": [], "walk": [], "done": False}
                     res[line[6:].strip()] = cur
                 elif cur is None:
                     continue
@@ -84,6 +89,10 @@ def _run(exe, cases):
                 elif line.startswith("E ") or line.startswith("W "):
                     p, _, rest = line[2:].partition(" ")
                     cur[line[0]].append((p.strip('"'), rest.split(" ", 1)[1] if " " in rest else rest))
+                elif line.startswith("A "):
+                    a = line[2:].split(" ", 5)      # E|W, start path, start line, end path, end line, message
+                    if len(a) == 6:
+                        cur["A"].append((a[0], a[1].strip('"'), int(a[2]), a[3].strip('"'), int(a[4]), a[5]))
                 elif line.startswith("WALK "):
                     cur["walk"].append(line)
             if rc != 0:
@@ -100,7 +109,8 @@ def _run(exe, cases):
 def seed_model(r):
     """an accepted model in which the names i and j exist at global, select and binder level with different types"""
     m = G.gen_model(r, size=r.choice([1, 2, 2, 3]))
-    m["globals"] = ["typedef int[0,3] id_t;", "int i = 0;", "int[0,9] j = 1;", "int gi;", "chan zc;"] + m["globals"][1:]
+    m["globals"] = ["typedef int[0,3] id_t;", "int i = 0;", "int[0,9] j = 1;", "int gi;", "chan zc;", "chan zca[2];",
+                    "int wf() { gi = gi + 1; return gi; }"] + m["globals"][1:]
     for t in m["templates"]:
         if not t["edges"]:
             t["edges"].append({"src": t["locs"][0]["id"], "dst": t["locs"][0]["id"], "select": [], "guard": None, "sync": None, "assign": None,
@@ -162,6 +172,32 @@ def inject(r, text, kind, pos=None):
         return text[:mm.start()] + ": " + r.choice(["idt", "nosuch_t", "Int"]) + text[mm.end():]
     new = "".join(toks)
     return new if new != text else None
+
+
+def semantic_faults(text, field):
+    """[(kind, faulty label text)]: the label still parses, the type checker rejects it (or warns).  Every role a label can play has
+    its own acceptance test in visitEdge / visitLocation, reported on the label's root expression, i.e. on a range that runs from
+    the first to the last character of the block; the offending operand is put first, last and in the middle, and the write is an
+    increment, an assignment, or hidden in a function (wf() writes the global gi)."""
+    T = "(%s)" % text
+    out = []
+    if field in ("guard", "inv"):
+        out += [("sideeffect", x) for x in (T + " && gi++", "gi++ >= 0 && " + T, T + " && wf() > 0", "wf() > 0 && " + T + " && gi >= gi",
+                                            T + " && (gi = 1) > 0", "(gi = 1) > 0 && " + T, "gi++")]
+        out += [("wrongrole", x) for x in ("1.5", "zc", T + " && zc", "gi + 1.5")]
+    elif field == "prob":
+        out += [("sideeffect", x) for x in (T + " + gi++", "gi++ + " + T, "gi++", "gi = 3", "wf()", T + " + wf()", "(gi = 1) + " + T)]
+        out += [("wrongrole", x) for x in ("zc", "zca", T + " + zc")]
+    elif field == "exprate":
+        out += [("wrongrole", x) for x in ("zc", "zca", T + " + zc")]
+    elif field == "sync":
+        d = text.rstrip()[-1:] if text.rstrip()[-1:] in ("!", "?") else "!"
+        out += [("sideeffect", x + d) for x in ("zca[gi++]", "zca[wf()]", "zca[(gi = 1)]")]
+        out += [("wrongrole", x + d) for x in ("gi", "zca", "wf()")]
+    elif field == "assign":
+        out += [("noeffect", x) for x in (text + ", gi + 1", "gi + 1, " + text, "gi == 1")]
+        out += [("wrongrole", x) for x in ("zc", text + ", zc")]
+    return out
 
 
 def insert_empty_label(xml, gi):
@@ -283,8 +319,18 @@ def run(ctx):
             ntok = len([t for t in G.tokens(text) if not t.isspace()])
             plan = [(k, None) for k in FAULTS] + [(r.choice(FAULTS), p) for p in range(ntok)]
             r.shuffle(plan)
-            for k, p in plan[:per_label] if not ctx.thorough else plan:
-                t2 = inject(r, text, k, p)
+            plan = plan[:per_label] if not ctx.thorough else plan
+            # the semantic faults of the label's role: all of them in the thorough tier, otherwise one of each kind and two more
+            sem_all = semantic_faults(text, lab[3])
+            sem_pick = list(sem_all)
+            if not ctx.thorough and sem_all:
+                r.shuffle(sem_pick)
+                first = {}
+                for kx in sem_pick:
+                    first.setdefault(kx[0], kx)
+                sem_pick = list(first.values()) + [kx for kx in sem_pick if kx not in first.values()][:2]
+            for k, p in plan + [(kx[0], kx[1]) for kx in sem_pick]:
+                t2 = inject(r, text, k, p) if k in FAULTS else p
                 if t2 is None:
                     continue
                 cid = "f%d" % len(meta)
@@ -299,7 +345,7 @@ def run(ctx):
                     cases.append((cid + ".sp", "p", insert_empty_label(G.to_xml(m), gi)))
                 meta[cid] = (si, lab, k, t2, xml)
                 cases.append((cid + ".b", "b", xml))
-                if k == "typeerr":
+                if k in SEMANTIC:
                     cases.append((cid + ".p", "p", xml))
                 both = lab[1] != "edge" and m["templates"][lab[0]]["locs"][lab[2]]["inv"] is not None and m["templates"][lab[0]]["locs"][lab[2]]["exprate"] is not None
                 # (in the textual format the invariant and the rate of a location are ONE production `name { inv ; rate }`: no block of its own)
@@ -342,6 +388,7 @@ def run(ctx):
     diagkey = {}
     n_cmp = 0
     dist = {}
+    reported = {}       # semantic faults that drew a diagnostic in their own block (the others are accepted by the library)
     synt = sem = 0
     n_xta, xta_disturbed = 0, []
     for cid, (si, lab, k, t2, xml) in meta.items():
@@ -360,7 +407,7 @@ def run(ctx):
                 continue
             stats_shifted[0] += 1
         use, ref = fb, b0
-        if k == "typeerr" and not fb["E"]:
+        if k in SEMANTIC and not fb["E"]:
             fp = res.get(cid + ".p")
             if fp and fp["done"]:
                 use, ref = fp, bp0
@@ -369,6 +416,8 @@ def run(ctx):
             synt += 1
         n_cmp += 1
         dist[k + ":" + lab[3]] = dist.get(k + ":" + lab[3], 0) + 1
+        if k in SEMANTIC and any(p_ == path for p_, _ in use["E"] + use["W"]):
+            reported[k + ":" + lab[3]] = reported.get(k + ":" + lab[3], 0) + 1
         bad = None
         for fk, fv in ref["F"].items():
             if fk == key:
@@ -391,7 +440,19 @@ def run(ctx):
                     extra.append(x)
             if extra:
                 bad = "diagnostic attributed to another block: %s (faulted block %s)" % (extra[:2], path)
-                diagkey[cid] = extra[0][1].strip('"').split(":")[0]
+                diagkey[cid] = "diag:%s:%s" % (lab[3], extra[0][1].strip('"').split(":")[0])
+        if not bad:
+            # both anchors: a diagnostic that starts in one block and ends in another (or before it starts) is attributed to a
+            # block that holds no fault -- whichever of the two blocks is the faulted one
+            split = lambda lst: [a for a in lst if a[1] != a[3] or a[4] < a[2]]  # noqa: E731
+            refs = split(ref["A"])
+            for a in split(use["A"]):
+                if a in refs:
+                    refs.remove(a)
+                    continue
+                bad = "diagnostic %s starts in %s line %d and ends in %s line %d (faulted block %s)" % (a[5], a[1] or "(no path)", a[2], a[3] or "(no path)", a[4], path)
+                diagkey[cid] = "diag-end:%s:%s" % (lab[3], a[5].strip('"').split(":")[0])
+                break
         if bad:
             disturbed.append((cid, bad))
         # the same fault in the textual (XTA) rendering: the label's own error production must confine it
@@ -411,6 +472,7 @@ def run(ctx):
     cov["syntax_fault_cases"] = synt
     cov["semantic_fault_cases_compared_after_analysis"] = sem
     cov["fault_distribution"] = dist
+    cov["semantic_faults_reported_in_their_block"] = reported
     # declaration prefix
     dbad = []
     n_decl = 0
@@ -450,7 +512,7 @@ def run(ctx):
                 lpath = re.sub(r"label\[(\d+)\]$", lambda mm: "label[%d]" % (int(mm.group(1)) + 1), lpath)
             fb_ = res.get(cid + ".b") or {"E": []}
             syn = any(p_ == lpath and "syntax_error" in msg_ for p_, msg_ in fb_["E"])
-            k = ("leak:frame:" if syn else "leak:frame-without-syntax-error:") + shape if shape else ("diag:%s:%s" % (meta[cid][1][3], diagkey[cid]) if cid in diagkey else
+            k = ("leak:frame:" if syn else "leak:frame-without-syntax-error:") + shape if shape else (diagkey[cid] if cid in diagkey else
                                                      "disturbance:%s:%s" % (meta[cid][1][3], meta[cid][2]))
             if not shape and cid not in diagkey and lab_[3] == "exprate" and re.match(r"field %s\.inv changed" % re.escape(lab_[4].rsplit(".", 1)[0]), what):
                 # the operand a faulty rate label left on the builder's expression stack is taken for the invariant of the same location
@@ -464,6 +526,10 @@ def run(ctx):
         ctx.finding(k, "fault (%s) in label %s = %r disturbs the rest of the document: %s (%d cases of this shape)" % (fk, lab[4], t2, what, len(lst)),
                     {"entry": "parse_XML_buffer(buf, DocumentBuilder*, true)", "input_b64": base64.b64encode(xml.encode()).decode(),
                      "faulted_field": lab[4], "fault_kind": fk, "faulty_label_text": t2, "fault_free_label_text": get_label(seeds[si], lab),
+                     "faulted_path": re.sub(r"label\[(\d+)\]$", lambda mm: "label[%d]" % (int(mm.group(1)) + (1 if cid in shifted else 0)),
+                                            label_path(seeds[si], lab[0], lab[1], lab[2], lab[3])),
+                     "fault_free_input_b64": base64.b64encode((insert_empty_label(G.to_xml(seeds[si]), shifted[cid]) if cid in shifted
+                                                               else G.to_xml(seeds[si])).encode()).decode(),
                      "observed": what, "required": "everything outside %s identical to the fault-free document" % lab[4]})
     xs = {}
     for cid, what in xta_disturbed:
@@ -519,6 +585,21 @@ def replay(ctx, path):
         return 1
     exe08, _ = C08.build_harness("asan")
     text = base64.b64decode(rp["input_b64"]).decode()
+    if rp.get("faulted_path") and rp.get("fault_free_input_b64") and r.get("key", "").startswith("diag"):
+        # a diagnostic outside the faulted block: both anchors of every diagnostic of the faulty input that the fault-free input
+        # does not have, with (semantic faults) or without static analysis
+        mode = "p" if rp.get("fault_kind") in SEMANTIC else "b"
+        res, _ = _run(build("asan"), [("f", mode, text), ("r", mode, base64.b64decode(rp["fault_free_input_b64"]).decode())])
+        ref = list(res.get("r", {}).get("A", []))
+        bad = 0
+        for a in res.get("f", {}).get("A", []):
+            if a in ref:
+                ref.remove(a)
+                continue
+            here = a[1] == rp["faulted_path"] and a[3] == rp["faulted_path"] and a[4] >= a[2]
+            bad += 0 if here else 1
+            print("%s %s: %s line %d .. %s line %d%s" % (a[0], a[5], a[1], a[2], a[3], a[4], "" if here else "   <-- not inside " + rp["faulted_path"]))
+        return 1 if bad else 0
     tres, crashes = C08.run_batch(exe08, [("r0", "xml", 1, "t", text)], 1)
     tl = tres.get("r0", [])
     sh = unmatched_push(tl)
